@@ -196,6 +196,7 @@ TABLE = {
     22: ('c10_classes', 'Zähler', 1, 1, 'v22'),
     23: ('c10_classes', 'Größe', 1, 0, 'e'),
     24: ('c10_classes', 'Fehlt_ä', 0, 0, 'e'),
+    25: ('c10_pkg.breaks_on_import', 'Thing', 0, 0, 'e'),     # module exists, import raises ImportError
     9: ('c10_classes', 'Gone', 0, 0, 'e'),
     8: ('nosuchmodule_c10', 'Gone', 0, 0, 'e'),
     20: ('ZODB.tests.MinPO', 'MinPO', 1, 0, 'e'),
